@@ -16,6 +16,13 @@ whose `Type` callback is the constant one.  What remains per function (that its 
 `Type`/`Impl` code never panics, and that a dynamic `Type` callback is monotone) is
 proved where the callbacks are modelled (C13, C14) and otherwise only searched by the
 harness (`harness/c11.go`), which says so in the evidence.
+
+END-TO-END totality (`call_total_<f>`: `Fn.Call` on ANY list of well-formed values returns a value
+or an ordinary error) is proved for 39 functions: `hasindex` (slice d11) and, in slice d11b, `keys`,
+`values`, `reverse`, `coalescelist`, `compact`, `chunklist`, `index`, `range`, the 16 number / bool
+functions of `D11b.table` and the 14 string functions of `D11b.glueTable` (for every library).
+`merge` is a counterexample (`call_total_merge_counterexample`).  For all other functions the
+clause is searched by the harness only.
 -/
 import CtyModel.Lemmas.StdProto
 import CtyModel.Lemmas.StdOblType
@@ -656,7 +663,7 @@ theorem call_total_chunklist (nfc : String → Bool) (E : Stdlib.Env) (args : Li
 /-- **`index` is total** (collection.go `IndexFunc`; declares no `RefineResult`).  Its `Impl` makes a NESTED protocol
 call — `HasIndex(args[0], args[1])` is `HasIndexFunc.Call` — and reads the answer with `.True()`, which panics on an
 unknown or marked boolean: the nested call answers a KNOWN boolean on the arguments `index` is handed
-(`Stdlib.hasIndex_call_known`, `Stdlib.hasIndexU_unk`), `Index` is then applied only where `HasIndex` said true, and
+(`Stdlib.hasIndex_call_known_d11b`, `Stdlib.hasIndexU_unk`), `Index` is then applied only where `HasIndex` said true, and
 its result has the type the `Type` callback predicted from the VALUE of the key (`gocty.FromCtyValue` and the key
 arithmetic of `Index` read the same whole number: `Stdlib.keyIndex_of_fromCtyInt`). -/
 theorem call_total_index (nfc : String → Bool) (args : List Value) (hargs : ∀ a ∈ args, a.WF nfc = true) :
@@ -757,7 +764,7 @@ theorem d11b_specs_are_table_entries :
   refine ⟨?_, ?_, ?_⟩ <;> decide
 
 /-- the hypothesis of the totality theorems is met by non-trivial argument lists, and the calls do
-something: `min(3, marked… no: 3, -2)`, `keys({a=1})` under a mark, `coalescelist(null, unknown)` -/
+something: `min(3, -2)` answers a negative number; a map under a mark is a well-formed argument of `keys` -/
 example : (match (call (D11b.specVar D11b.pNumD) (D11b.staticTf .number) (D11b.implOf StdNum.minImpl)
     [Value.intVal 3, Value.intVal (-2)]).1 with
     | .ok v => (match v.v with | .n x => x.signbit | _ => false)
@@ -795,6 +802,33 @@ theorem call_total_merge_counterexample : ¬ CallTotalMerge := fun h => by
     | panicError w => exact h2 w hc
     | _ => rw [hc] at hw; cases hw
   | _ => rw [hc] at hw; cases hw
+
+/-! ### bookkeeping: which exported functions have an end-to-end totality theorem -/
+
+/-- the Go variables of the functions with a `call_total` theorem above -/
+def totalityProved : List String :=
+  D11b.collTable.map (·.2) ++ D11b.table.map (·.2.1) ++ D11b.glueTable.map (·.2.1)
+
+/-- the exported functions WITHOUT one: for them "never a panic, never a PanicError" is searched by the
+harness only (`merge` is a proved counterexample) -/
+def totalityOnlySearched : List String :=
+  (Generated.stdlibSyntax.map (·.var)).filter fun v => !totalityProved.contains v
+
+set_option maxRecDepth 16384 in
+/-- 39 of the 80 exported functions are proved total end to end, every one of them is an entry of the
+regenerated syntax table, and these 41 are not (regenerated: a function added to cty/function/stdlib shows
+up in the second list and fails this theorem until the list is updated) -/
+theorem totality_bookkeeping :
+    totalityProved.length = 39 ∧ totalityProved.all (fun v => (Generated.stdlibSyntax.map (·.var)).contains v) = true ∧
+    totalityOnlySearched =
+      ["AssertNotNullFunc", "BytesLenFunc", "BytesSliceFunc", "CSVDecodeFunc", "CoalesceFunc", "ConcatFunc", "ContainsFunc",
+       "DistinctFunc", "ElementFunc", "EqualFunc", "FlattenFunc", "FormatDateFunc", "FormatFunc", "FormatListFunc",
+       "GreaterThanFunc", "GreaterThanOrEqualToFunc", "JSONDecodeFunc", "JSONEncodeFunc", "JoinFunc", "LengthFunc",
+       "LessThanFunc", "LessThanOrEqualToFunc", "LogFunc", "LookupFunc", "MergeFunc", "NotEqualFunc", "ParseIntFunc",
+       "PowFunc", "RegexAllFunc", "RegexFunc", "SetHasElementFunc", "SetIntersectionFunc", "SetProductFunc",
+       "SetSubtractFunc", "SetSymmetricDifferenceFunc", "SetUnionFunc", "SliceFunc", "SortFunc", "StrlenFunc",
+       "TimeAddFunc", "ZipmapFunc"] := by
+  refine ⟨by decide, by decide, by decide⟩
 
 /-! ### the hypotheses are satisfiable -/
 
